@@ -66,7 +66,7 @@ INVERSE_PAIRS = {
     ("'true'", "getboolean(□)"): "INI boolean: 'true' written under a truthy guard, read with getboolean",
     ("str(□)", "int(getfloat(□))"): "integer build timestamps (quantifier: integer timestamps): str <-> int(getfloat)",
     ("str(int(□))", "getint(□)"): "media numbers: str(int(x)) <-> getint",
-    ("','.join(sorted((□ | {self.arch})))", "set(list<i for i in □.split(',') if i>)"):
+    ("','.join(sorted((□ | {self.arch})))", "set(gen<$0 for $0 in □.split(',') if $0>)"):
         "platforms: sorted comma list of the set (plus the tree arch, C17) <-> set of the non-empty items",
     ("□", "self._fix_path(□)"): "_fix_path is the identity for every version but 0.0 (R-GATE)",
 }
@@ -639,17 +639,16 @@ def r_hdr_current(model, rep):
     g = model.own_method("common.Header", "set_current_version")
     gcx = facts.fctx(model, g)
     st = [ev for ev in gcx.events if ev.kind == "store" and gcx.self_attr(ev.target) == "version"]
-    want = ("call", ("attr", ("const", "."), "join"), (("comp", "list", ("call", ("global", "str"), (("bound", "i"),), ()),
-                                                      ((("names", "i"), ("global", "VERSION"), ()),)),), ())
-    ok = len(st) == 1 and T.unwrap(st[0].value) == want or (len(st) == 1 and T.show(T.unwrap(st[0].value)).replace("gen<", "list<") == T.show(want))
+    want = ("call", ("attr", ("const", "."), "join"), (("comp", "gen", ("call", ("global", "str"), (("bound", "$0"),), ()),
+                                                      ((("names", "$0"), ("global", "VERSION"), ()),)),), ())
+    ok = len(st) == 1 and T.unwrap(st[0].value) == want
     rep.ob("R-HDR-CURRENT", "common.Header.set_current_version", ok, site=gcx.site(g.node),
            msg="" if ok else "set_current_version must set version to '.'.join(str(i) for i in VERSION)")
     f = model.own_method("treeinfo.Header", "serialize")
     cx, emits = facts.writer_emits(model, f)
     ver = [e for e in emits if e.key() == ("'header'", "'version'")]
     typ = [e for e in emits if e.key() == ("'header'", "'type'")]
-    ok = len(ver) == 1 and not ver[0].guards and T.show(ver[0].value).replace("gen<", "list<") == \
-        "'.'.join(list<str(i) for i in productmd.common.VERSION>)"
+    ok = len(ver) == 1 and not ver[0].guards and T.show(ver[0].value) == "'.'.join(gen<str($0) for $0 in productmd.common.VERSION>)"
     rep.ob("R-HDR-CURRENT", "treeinfo.Header.serialize:version", ok, site=cx.site(f.node),
            msg="" if ok else "the INI header must be written with the current version ('.'.join(str(i) for i in VERSION))")
     ok = len(typ) == 1 and cx.self_attr(typ[0].value) == "metadata_type" and not typ[0].guards
